@@ -4,6 +4,12 @@ import json, os, sys
 HERE = os.path.dirname(os.path.dirname(os.path.abspath(__file__)))
 
 CLAIMED = {
+ "C02": dict(
+  level="fault_enumeration",
+  technique="deterministic simulation with fault injection: in-process fake of the external CBC solver process and its MPS/solution temp files (SimCBC), every fault kind enumerated at every solver invocation of seeded answer-first workloads, exact Fraction reference model, ddmin-minimised replay",
+  text="For each seeded workload (generated from its answer; ground truth by exact null space, Fourier-Motzkin cone feasibility and bounded enumeration) the fault-free run must satisfy the whole property in all three modes; then, for every solver invocation the smallest-integers / duplicate-search call makes, every fault of the SimCBC list is injected once (solution file torn at sampled or all byte offsets, every variable perturbed/dropped/scaled, stale or empty or missing file, rewritten status, crashed/killed/missing solver, relaxed or truncated search, ENOSPC/EIO/torn MPS, removed temp dir) and the safety half of the property must still hold (an answer is balanced, positive, integral, coprime, right keys, unique ray; any exception is an acceptable refusal). Enumeration is complete per (call, invocation, fault kind) within the listed kinds; workloads are sampled.",
+  note="Trusted: sim/models/nullspace.py (exact Fraction algebra), sim/models/composition.py (derivation-tree compositions), the real PuLP and cbc binary. Not injected: a solver that never terminates. Under faults minimality is not demanded for multi-dimensional cones. Known finding C02-parametric-infeasible-cone is listed, not alarmed.",
+  design_ref="DESIGN.md section 3.1"),
  "C11": dict(
   level="exploration",
   technique="deterministic simulation: seeded operation histories on persistent Equilibrium objects checked step-by-step against an exact algebraic reference model (refinement), refused-operation faults, hash-seed configurations, ddmin-minimised replay",
@@ -11,7 +17,7 @@ CLAIMED = {
   note="Trusted: the reference model sim/models/eqalgebra.py (40 lines of exact Fraction/sympy arithmetic), Python's Fraction and sympy.simplify for symbolic constants. Bases carry no inactive parts (excluded by the property). The value of Equilibrium.cancel is not asserted.",
   design_ref="DESIGN.md section 3.3"),
 }
-PENDING = {"C02": "check under construction in this session (claimed in DESIGN.md; will move to checks when built)", "C08": "check under construction in this session (claimed in DESIGN.md; will move to checks when built)", "C15": "check under construction in this session (claimed in DESIGN.md; will move to checks when built)"}
+PENDING = {"C08": "check under construction in this session (claimed in DESIGN.md; will move to checks when built)", "C15": "check under construction in this session (claimed in DESIGN.md; will move to checks when built)"}
 
 NA = {
  "C01": "formula parsing is a pure function of the input string; the only shared object (memoised pyparsing grammar) is never written after construction and chempy has no second task, clock or I/O on this path: nothing to schedule or fault (parser misreads do surface through C02's independent composition oracle)",
